@@ -187,7 +187,278 @@ theorem accepted_contract_receive_is_next (c : Cand) (f : Facts) (h : verifyBloc
     · exact h.2
   exact sequencer_ok hseq he ((@isSend_isReceive_of_type c.b).2.2.1 hcr).2
 
-/-! ### T3 `verify_complete_on_honest`: honest blocks in honest contexts are accepted (T1 is not vacuous) -/
+/-! ### T3 completeness: validity plus admissibility is accepted; together with T1 an exact characterisation -/
+
+/-- what `ApplyBlock` requires beyond the property's sentence: format, resources and queue position -/
+structure Admissible (c : Cand) (f : Facts) : Prop where
+  version : c.b.ver = 1
+  chain : c.b.cid ≠ 0 ∧ c.b.cid = f.ccid
+  link_shape : c.b.h = 1 ↔ c.b.phz = true
+  receive_shape : isSend c.b = false →
+    (c.b.amt = none ∨ c.b.amt = some 0) ∧ c.b.tsz = true ∧ c.b.toz = true ∧ c.b.fbz = false
+  send_shape : isSend c.b = true → c.b.fbz = true ∧ ∀ a, c.b.amt = some a → 0 < a → c.b.tsz = false
+  pow : c.b.diff ≠ 0 → c.b.emb = false ∧ f.pow = true
+  plasma : c.b.emb = false → ∃ avail base, f.avail = some avail ∧ basePlasma c.b f = some base ∧
+    c.b.fp ≤ avail ∧ (Pow.difficultyToPlasma c.b.diff + c.b.fp) % two64 ≤ Gen.MaxPlasmaForAccountBlock ∧
+    base ≤ (Pow.difficultyToPlasma c.b.diff + c.b.fp) % two64
+  embedded_call : isSend c.b = true → c.b.toemb = true → f.vsend = true
+  inbox : c.b.emb = true → f.seq = 1
+  packed_link : f.store2 = true
+
+/-- T3 `verify_complete`: a block that is valid in the sense of the property and admissible (well-formed, paid for,
+    next in the inbox) is accepted — for all blocks and contexts. With T1: the verifier rejects nothing that the
+    property and the admission rules allow. -/
+theorem verify_complete (c : Cand) (f : Facts) (hv : ValidBlock c f) (ha : Admissible c f) :
+    verifyBlock c f = .ok () := by
+  obtain ⟨hkind, ⟨hhz, hhok⟩, husr, hctr, ⟨hstore, hh0, hext⟩, ⟨hmaz, hmaon, hackU, hackC⟩, hamt, hrecv⟩ := hv
+  obtain ⟨a1, ⟨a2, a2'⟩, a3, a4, a5, a6, a7, a8, a9, a10⟩ := ha
+  have hctx : ∀ st, st = true → getContextWith st c f = .ok () := by
+    intro st hst
+    simp only [getContextWith, heightChecks, firstErr_append, firstErr_cons, firstErr_nil, chk_ok, and_true, hst, if_true]
+    refine ⟨⟨by simpa using hh0, ?_, ?_⟩, hmaz, by simp [hmaon]⟩
+    · cases h1 : (c.b.h == 1) with
+      | false => simp
+      | true => have : c.b.h = 1 := by simpa using h1
+                simp [a3.mp this]
+    · cases hp : c.b.phz with
+      | false => simp
+      | true => have := a3.mpr hp; simp [this]
+  have hsb : (c.subj f).b = c.b := rfl
+  obtain ⟨tUS, tUR, tCR, -⟩ := @isSend_isReceive_of_type c.b
+  simp only [verifyBlock, supervisorStages, List.map, firstErr_cons, firstErr_nil, chk_ok, and_true,
+    verifyAccountBlock, verifyTransaction, txChecks, getContext, getContext2, hctx _ hstore, hctx _ a10, true_and]
+  have hncs : (c.b.bt == Gen.BlockTypeContractSend) = false := by
+    rcases hkind with ⟨-, hbt | hbt⟩ | ⟨-, hbt⟩ <;> rw [hbt] <;> decide
+  have hver : version (c.subj f) f = .ok () := by
+    simp [version, firstErr_cons, firstErr_nil, chk_ok, hsb, a1]
+  have hcid : chainIdentifier (c.subj f) f = .ok () := by
+    simp only [chainIdentifier, firstErr_cons, firstErr_nil, chk_ok, hsb, and_true]
+    exact ⟨by simpa using a2, by simp [a2']⟩
+  have htype : blockType (c.subj f) f = .ok () := by
+    simp only [blockType, firstErr_cons, firstErr_nil, chk_ok, hsb, and_true]
+    rcases hkind with ⟨he, hbt | hbt⟩ | ⟨he, hbt⟩ <;> simp [he, hbt, isSend, isReceive, chk_ok] <;> decide
+  have hamounts : amounts (c.subj f) f = .ok () := by
+    simp only [amounts, hsb]
+    cases hs : isSend c.b with
+    | true =>
+      obtain ⟨am, ham, ham0, hamlt, -⟩ := hamt hs
+      obtain ⟨hfbz, hts⟩ := a5 hs
+      simp only [if_true, ham, firstErr_cons, firstErr_nil, chk_ok, and_true, amountTooBig]
+      refine ⟨by simpa using ham0, ?_, ?_, by simp [hfbz]⟩
+      · have : Gen.AmountMaxBitLen = 255 := rfl
+        rw [this]; simp only [decide_eq_false_iff_not]; omega
+      · cases hp : decide (am > 0) with
+        | false => simp
+        | true => have : 0 < am := by simpa using hp
+                  simp [hts am ham this]
+    | false =>
+      obtain ⟨ha, htsz, htoz, hfbz⟩ := a4 hs
+      simp only [Bool.false_eq_true, if_false, firstErr_cons, firstErr_nil, chk_ok, and_true]
+      refine ⟨?_, by simp [htsz], by simp [htoz], hfbz⟩
+      rcases ha with ha | ha <;> simp [ha]
+  have hpow : powCheck (c.subj f) f = .ok () := by
+    simp only [powCheck, hsb]
+    cases hd : (c.b.diff != 0) with
+    | false => simp
+    | true =>
+      have : c.b.diff ≠ 0 := by simpa using hd
+      obtain ⟨he, hp⟩ := a6 this
+      simp [firstErr_cons, firstErr_nil, chk_ok, he, Cand.subj, hp]
+  have hprev : previous (c.subj f) f = .ok () := by
+    simp only [previous, heightChecks, firstErr_append, firstErr_cons, firstErr_nil, chk_ok, and_true, hsb]
+    refine ⟨⟨by simpa using hh0, ?_, ?_⟩, ?_⟩
+    · cases h1 : (c.b.h == 1) with
+      | false => simp
+      | true => have : c.b.h = 1 := by simpa using h1
+                simp [a3.mp this]
+    · cases hp : c.b.phz with
+      | false => simp
+      | true => have := a3.mpr hp; simp [this]
+    · cases h1 : (c.b.h == 1) with
+      | true => simp
+      | false =>
+        cases he : c.b.emb with
+        | true => simp
+        | false =>
+          have hn1 : c.b.h ≠ 1 := by simpa using h1
+          have := (hext he).2.2 hn1
+          simp [firstErr_cons, firstErr_nil, chk_ok, Cand.subj, this]
+  have hma : momentumAcknowledged (c.subj f) f = .ok () := by
+    simp only [momentumAcknowledged, isBatched, isContractReceive, hsb]
+    rcases hkind with ⟨he, hbt⟩ | ⟨he, hbt⟩
+    · simp only [he, Bool.and_false, Bool.false_eq_true, if_false]
+      cases hz : (c.subj f).prevZeroHH with
+      | true => simp
+      | false =>
+        obtain ⟨p, hp, hle⟩ := hackU he hz
+        have : (c.subj f).pmah = some p := hp
+        simp [this, chk_ok]; omega
+    · obtain ⟨hs, hr⟩ := tCR hbt
+      obtain ⟨hconf, hsame⟩ := hackC he
+      simp only [he, hs, hr, Bool.and_true, Bool.false_eq_true, if_false, if_true, Cand.subj, Bool.not_true,
+        firstErr_cons, firstErr_nil, chk_ok, and_true]
+      refine ⟨?_, by simp [hconf]⟩
+      simp only [List.any_eq_false, List.mem_map]
+      rintro x ⟨d, hd, rfl⟩
+      simp [hsame d hd]
+  have hfrom : fromHash (c.subj f) f = .ok () := by
+    simp only [fromHash, hsb]
+    cases hs : isSend c.b with
+    | true => simp
+    | false =>
+      have hr : isReceive c.b = true := by
+        rcases hkind with ⟨-, hbt | hbt⟩ | ⟨-, hbt⟩
+        · have := (tUS hbt).1; simp [this] at hs
+        · exact (tUR hbt).2
+        · exact (tCR hbt).2
+      obtain ⟨hfex, hrec, hg⟩ := hrecv hr
+      simp only [Bool.false_eq_true, if_false, Cand.subj, Bool.not_true, firstErr_cons, firstErr_nil, chk_ok, and_true]
+      refine ⟨by simp [hfex], ?_, hrec⟩
+      cases hgate : f.gate with
+      | false => simp
+      | true => simp [hg hgate]
+  have hseq : sequencer (c.subj f) f = .ok () := by
+    simp only [sequencer, hsb]
+    cases he : c.b.emb with
+    | false => simp
+    | true =>
+      cases hr : isReceive c.b with
+      | false => simp
+      | true => simp [Cand.subj, firstErr_cons, firstErr_nil, chk_ok, a9 he]
+  have hall : abAll (c.subj f) f = .ok () := by
+    simp only [abAll, allChecks, List.map, firstErr_cons, firstErr_nil, and_true]
+    exact ⟨hver, hcid, htype, hamounts, hpow, hprev, hma, hfrom, hseq⟩
+  have hplasma : enoughPlasma c.b f = .ok () := by
+    simp only [enoughPlasma]
+    cases he : c.b.emb with
+    | true => simp
+    | false =>
+      obtain ⟨av, base, hav, hbase, hp1, hp2, hp3⟩ := a7 he
+      simp only [Bool.false_eq_true, if_false, hav, hbase, firstErr_cons, firstErr_nil, chk_ok, and_true,
+        decide_eq_false_iff_not]
+      omega
+  have hvm : vmApplyBlock c f = .ok () := by
+    simp only [vmApplyBlock, firstErr_cons, firstErr_nil, and_true]
+    refine ⟨hplasma, ?_⟩
+    rcases hkind with ⟨he, hbt | hbt⟩ | ⟨he, hbt⟩
+    · -- user send
+      have e1 : (c.b.bt == Gen.BlockTypeUserSend || c.b.bt == Gen.BlockTypeContractSend) = true := by rw [hbt]; decide
+      obtain ⟨hs, -⟩ := tUS hbt
+      obtain ⟨am, ham, ham0, -, hambal⟩ := hamt hs
+      simp only [e1, if_true, applySend, firstErr_cons, firstErr_nil, chk_ok, and_true, insufficientFunds, ham]
+      constructor
+      · cases hte : c.b.toemb with
+        | false => simp
+        | true =>
+          obtain ⟨av, base, -, hbase, -⟩ := a7 he
+          have hr : isReceive c.b = false := (tUS hbt).2
+          simp only [basePlasma, hr, hte, Bool.false_eq_true, if_false, Bool.not_true] at hbase
+          simp [hbase, chk_ok, a8 hs hte]
+      · cases c.b.tsz with
+        | true => simp
+        | false => simp only [Bool.false_eq_true, if_false, decide_eq_false_iff_not]; omega
+    · have e1 : (c.b.bt == Gen.BlockTypeUserSend || c.b.bt == Gen.BlockTypeContractSend) = false := by rw [hbt]; decide
+      have e2 : (c.b.bt == Gen.BlockTypeUserReceive) = true := by rw [hbt]; decide
+      simp [e1, e2]
+    · have e1 : (c.b.bt == Gen.BlockTypeUserSend || c.b.bt == Gen.BlockTypeContractSend) = false := by rw [hbt]; decide
+      have e2 : (c.b.bt == Gen.BlockTypeUserReceive) = false := by rw [hbt]; decide
+      have e3 : (c.b.bt == Gen.BlockTypeContractReceive) = true := by rw [hbt]; decide
+      simp [e1, e2, e3, (hctr he).2.2, firstErr_cons, firstErr_nil, chk_ok]
+  have htxh : txHash c f = .ok () := by
+    simp [txHash, firstErr_cons, firstErr_nil, chk_ok, hhz, hhok]
+  have htxs : txSignature c f = .ok () := by
+    simp only [txSignature]
+    cases he : c.b.emb with
+    | true => simp [firstErr_cons, firstErr_nil, chk_ok, (hctr he).1, (hctr he).2.1]
+    | false =>
+      obtain ⟨hsig, hpk, hsok, -, -⟩ := husr he
+      simp [firstErr_cons, firstErr_nil, chk_ok, hsig, hpk, hsok]
+  have htxp : txProducer c f = .ok () := by
+    simp only [txProducer]
+    cases he : c.b.emb with
+    | true => simp
+    | false => simp [chk_ok, (husr he).2.2.2.1]
+  have htxd : txDescendantBlocks c f = .ok () := by
+    simp only [txDescendantBlocks]
+    rcases hkind with ⟨he, -⟩ | ⟨he, hbt⟩
+    · have : isContractReceive c.b = false := by simp [isContractReceive, he]
+      simp [this, (husr he).2.2.2.2, firstErr_cons, firstErr_nil, chk_ok]
+    · have : isContractReceive c.b = true := by simp [isContractReceive, he, (tCR hbt).2]
+      simp [this]
+  exact ⟨hncs, ⟨hncs, hall⟩, hvm, hncs, htxh, htxs, htxp, htxd⟩
+
+/-- everything accepted is admissible -/
+theorem admissible_of_accepted (c : Cand) (f : Facts) (h : verifyBlock c f = .ok ()) : Admissible c f := by
+  have hv := verify_sound c f h
+  simp only [verifyBlock, supervisorStages, List.map, firstErr_cons, firstErr_nil, chk_ok, and_true] at h
+  obtain ⟨-, hab, -, hvm, htx⟩ := h
+  simp only [verifyAccountBlock, firstErr_cons, firstErr_nil, chk_ok, and_true] at hab
+  obtain ⟨-, hctx, hall⟩ := hab
+  obtain ⟨hh0, hh1, hhn1, -, -, -⟩ := getContext_ok hctx
+  obtain ⟨hver, hcid, -, hamt, hpow, -, -, -, hseq⟩ := abAll_ok hall
+  have hsb : (c.subj f).b = c.b := rfl
+  obtain ⟨tUS, tUR, tCR, -⟩ := @isSend_isReceive_of_type c.b
+  simp only [verifyTransaction, firstErr_cons, firstErr_nil, chk_ok, and_true] at htx
+  obtain ⟨-, hctx2, -⟩ := htx
+  simp only [vmApplyBlock, firstErr_cons, firstErr_nil, and_true] at hvm
+  obtain ⟨hplasma, hvm2⟩ := hvm
+  refine ⟨version_ok hver, chainIdentifier_ok hcid, ⟨hh1, ?_⟩, ?_, ?_, ?_, ?_, ?_, ?_, ?_⟩
+  · intro hp
+    cases Decidable.em (c.b.h = 1) with
+    | inl h1 => exact h1
+    | inr hn => have := hhn1 hn; simp [hp] at this
+  · intro hs; exact amounts_receive_ok hamt (by rw [hsb]; exact hs)
+  · intro hs
+    obtain ⟨a, ha, -, -, hts, hfbz⟩ := amounts_send_ok hamt (by rw [hsb]; exact hs)
+    rw [hsb] at ha hts hfbz
+    refine ⟨hfbz, ?_⟩
+    intro a' ha' hp
+    rw [ha] at ha'; cases ha'; exact hts hp
+  · intro hd
+    simp only [powCheck, hsb] at hpow
+    have : (c.b.diff != 0) = true := by simpa using hd
+    simp only [this, if_true, firstErr_cons, firstErr_nil, chk_ok, and_true] at hpow
+    exact ⟨hpow.1, by simpa [Cand.subj] using hpow.2⟩
+  · intro he
+    simp only [enoughPlasma, he, Bool.false_eq_true, if_false] at hplasma
+    cases hav : f.avail with
+    | none => simp [hav] at hplasma
+    | some av =>
+      simp only [hav, firstErr_cons, firstErr_nil, chk_ok, and_true, decide_eq_false_iff_not] at hplasma
+      obtain ⟨h1, h2, h3⟩ := hplasma
+      cases hb : basePlasma c.b f with
+      | none => simp [hb] at h3
+      | some base =>
+        simp only [hb, chk_ok, decide_eq_false_iff_not] at h3
+        exact ⟨av, base, rfl, rfl, by omega, by omega, by omega⟩
+  · intro hs hte
+    have hus : c.b.bt = Gen.BlockTypeUserSend := by
+      rcases hv.kind with ⟨-, hbt | hbt⟩ | ⟨-, hbt⟩
+      · exact hbt
+      · have := (tUR hbt).1; simp [this] at hs
+      · have := (tCR hbt).1; simp [this] at hs
+    have e1 : (c.b.bt == Gen.BlockTypeUserSend || c.b.bt == Gen.BlockTypeContractSend) = true := by rw [hus]; decide
+    simp only [e1, if_true, applySend, hte, firstErr_cons, firstErr_nil, and_true] at hvm2
+    have h1 := hvm2.1
+    cases hm : f.mplasma with
+    | none => simp [hm] at h1
+    | some p => simp only [hm, chk_ok] at h1; simpa using h1
+  · intro he
+    have hcr : c.b.bt = Gen.BlockTypeContractReceive := by
+      rcases hv.kind with h | h
+      · simp [he] at h
+      · exact h.2
+    exact sequencer_ok hseq he (tCR hcr).2
+  · simp only [getContext2] at hctx2
+    have := @getContext_ok c { f with store := f.store2 } (by simpa [getContext, getContextWith] using hctx2)
+    exact this.2.2.2.2.2
+
+/-- `verify_exact`: acceptance is exactly validity (the property's sentence) plus admissibility -/
+theorem verify_exact (c : Cand) (f : Facts) :
+    verifyBlock c f = .ok () ↔ ValidBlock c f ∧ Admissible c f :=
+  ⟨fun h => ⟨verify_sound c f h, admissible_of_accepted c f h⟩, fun ⟨hv, ha⟩ => verify_complete c f hv ha⟩
+
+/-! ### `verify_complete_on_honest`: honest blocks in honest contexts are accepted (T1 is not vacuous) -/
 
 /-- the facts of a node at momentum 8 for user account blocks built by `GenerateFromTemplate` -/
 def honestFacts : Facts :=
@@ -231,6 +502,9 @@ theorem honest_contract_receive_accepted : verifyBlock honestContractReceive hon
 
 /-- and the three honest blocks satisfy the sentence directly (so `ValidBlock` is satisfiable) -/
 example : ValidBlock honestSend honestFacts := verify_sound _ _ honest_user_send_accepted
+/-- … and the hypotheses of `verify_complete` are satisfiable -/
+example : Admissible honestContractReceive honestContractFacts :=
+  admissible_of_accepted _ _ honest_contract_receive_accepted
 
 /-! ### boundary of the amount clause -/
 
